@@ -54,9 +54,10 @@ pub fn run_pass(device: &mut Device) -> anyhow::Result<()> {
                     }
                 }
 
+                // Two variants clash when they get the same number under the same cfg, whatever their names
                 let duplicates = seen_values
                     .iter()
-                    .duplicates()
+                    .duplicates_by(|(num, id)| (*num, id.cfg().clone()))
                     .map(|(num, name)| format!("{name}: {num}"))
                     .collect::<Vec<_>>();
 
